@@ -212,6 +212,7 @@ fn main() {
     } else {
         vec![("new", Plan::New), ("unplanned", Plan::Unplanned)]
     };
+    std::panic::set_hook(Box::new(|_| {}));
     let threads = 16usize;
     let mut lines: Vec<String> = vec![];
     for (kname, kernel) in &kernels {
@@ -231,7 +232,11 @@ fn main() {
                             for (tname, thr) in thresholds {
                                 for (pname, plan) in plans.iter() {
                                     // the encoder-side threshold only matters for plan/unplanned
-                                    let (nt, d) = run_case(c, *plan, thr, thr);
+                                    // a panic in one configuration is a result of its own
+                                    let (nt, d) = match std::panic::catch_unwind(std::panic::AssertUnwindSafe(|| run_case(c, *plan, thr, thr))) {
+                                        Ok(r) => r,
+                                        Err(_) => (false, "PANIC".to_string()),
+                                    };
                                     out.push(format!("{i} kernel={kname},thr={tname},plan={pname} {} {d}", nt as u8));
                                 }
                             }
